@@ -274,20 +274,36 @@ structure WItem where
   rp : List Nat
 deriving Repr
 
-/-- `taxons[t] = v` -/
+/-- `taxons[t] = v` : the assignment of the code BEFORE the repair 5d9c1cf (kept for `taxDistAssign`) -/
 def setW : List (Nat × Nat) → Nat → Nat → List (Nat × Nat)
   | [], x, w => [(x, w)]
   | (x', v) :: r, x, w => if x' = x then (x', w) :: r else (x', v) :: setW r x w
 
+/-- `taxons[t] += v` (lca.go, `TaxonomicDistribution`, since the repair 5d9c1cf) -/
+def addW : List (Nat × Nat) → Nat → Nat → List (Nat × Nat)
+  | [], x, w => [(x, w)]
+  | (x', v) :: r, x, w => if x' = x then (x', v + w) :: r else (x', v) :: addW r x w
+
 /-- `TaxonomicDistribution`: the keys of the `merged_taxid` map (already `strconv.Atoi`'d) resolved
-through `Taxon`; an unknown taxid is `log.Panicf`.  Two keys resolving to the same node overwrite
-each other (the harness gives them equal weights, the Go map order being unspecified). -/
+through `Taxon`; an unknown taxid is `log.Panicf`.  The counts of the keys resolving to the same node
+(a merged taxid and its current taxid) are ADDED (`taxons[t] += v`). -/
 def taxDist (t : Taxo) : List (Nat × Nat) → List (Nat × Nat) → Res (List (Nat × Nat))
   | [], acc => .ok acc
   | (k, w) :: rest, acc =>
     match resolve t k with
     | none => .error .panic
-    | some x => taxDist t rest (setW acc x w)
+    | some x => taxDist t rest (addW acc x w)
+
+/-- `TaxonomicDistribution` as it was BEFORE the repair 5d9c1cf (`taxons[t] = v`): two keys resolving
+to the same node overwrite each other, the key met last in the map iteration order wins.  Not the
+code any more; kept so that the order dependence that was found stays stated (`weightedLcaAssign`,
+Props `weightedLca_order_counterexample`). -/
+def taxDistAssign (t : Taxo) : List (Nat × Nat) → List (Nat × Nat) → Res (List (Nat × Nat))
+  | [], acc => .ok acc
+  | (k, w) :: rest, acc =>
+    match resolve t k with
+    | none => .error .panic
+    | some x => taxDistAssign t rest (setW acc x w)
 
 /-- first loop of `Taxonomy.LCA`: the reversed path of every taxon -/
 def mkItems (t : Taxo) (fuel : Nat) : List (Nat × Nat) → Res (List WItem)
@@ -347,6 +363,12 @@ def wlcaNodes (t : Taxo) (fuel : Nat) (dist : List (Nat × Nat)) : Res (Option N
 statistics; `.ok none` is the `nil` answer (on which `AddLCAWorker` panics) -/
 def weightedLca (t : Taxo) (fuel : Nat) (kws : List (Nat × Nat)) : Res (Option Nat) :=
   match taxDist t kws [] with
+  | .error e => .error e
+  | .ok dist => wlcaNodes t fuel dist
+
+/-- `Taxonomy.LCA(sequence, 1.0)` with the UNREPAIRED `TaxonomicDistribution` (`taxDistAssign`) -/
+def weightedLcaAssign (t : Taxo) (fuel : Nat) (kws : List (Nat × Nat)) : Res (Option Nat) :=
+  match taxDistAssign t kws [] with
   | .error e => .error e
   | .ok dist => wlcaNodes t fuel dist
 
